@@ -338,7 +338,7 @@ func runCheck(o *checkOpts) int {
 				} else if st2 == "sat" {
 					// only a candidate: the full query still gets its full time budget on all solvers below
 					cand := solveResult{status: "sat", solver: solvers[0].name + " (candidate model: quantified axioms dropped)", ms: r.ms + ms2, out: out2}
-					full := solve(q, tmp, fmt.Sprintf("q%d", i), o.timeout, thorough)
+					full := solve(q, tmp, fmt.Sprintf("q%d", i), oblTimeout(c, o.timeout), thorough)
 					if full.status == "unsat" || full.status == "sat" || full.status == "disagree" {
 						r = full
 					} else {
@@ -348,7 +348,7 @@ func runCheck(o *checkOpts) int {
 				}
 			}
 			if !decided() {
-				r = solve(q, tmp, fmt.Sprintf("q%d", i), o.timeout, thorough)
+				r = solve(q, tmp, fmt.Sprintf("q%d", i), oblTimeout(c, o.timeout), thorough)
 			}
 			ob.Status, ob.Solver, ob.Ms, ob.Output = r.status, r.solver, r.ms, r.out
 			if r.status == "sat" {
@@ -741,4 +741,16 @@ func replayReproduced(path string) bool {
 		return false
 	}
 	return strings.Contains(string(b), "REPLAY: reproduced on the real code")
+}
+
+// oblTimeout: `option timeout=N` on the contract of the function under verification raises the per-obligation budget.
+func oblTimeout(c *FuncCtx, dflt int) int {
+	if c != nil && c.rootCon != nil {
+		if v := c.rootCon.Options["timeout"]; v != "" {
+			if n, err := strconv.Atoi(v); err == nil && n > dflt {
+				return n
+			}
+		}
+	}
+	return dflt
 }
